@@ -21,6 +21,9 @@ use super::{Call, Res};
 struct Request {
     call: Call,
     text: String,
+    /// perform the call on a thread with a stack of this many KiB (headroom lane)
+    #[serde(default)]
+    stack_kib: Option<u64>,
 }
 
 /// main loop of `coresim refserver <A|B>`
@@ -51,7 +54,19 @@ pub fn serve(world_b: bool) -> i32 {
         if pid == 0 {
             // child: exactly one call, then exit
             unsafe { libc::close(fds[0]) };
-            let res = if world_b {
+            let res = if let Some(kib) = req.stack_kib {
+                // the caller's stack is what it is: a thread with exactly this much (a stack
+                // overflow kills this child; the server reports that as a crash of the single call)
+                std::thread::Builder::new()
+                    .name("headroom".into())
+                    .stack_size((kib as usize) << 10)
+                    .spawn(move || {
+                        sim_clock(true);
+                        std::panic::catch_unwind(std::panic::AssertUnwindSafe(|| exec_call(&req.call, &req.text, None, None))).unwrap_or(Res::Panic)
+                    })
+                    .map(|h| h.join().unwrap_or(Res::Panic))
+                    .unwrap_or(Res::Panic)
+            } else if world_b {
                 // another thread, another stack size, some heap history first
                 let junk: Vec<Vec<u8>> = (0..64).map(|i| vec![i as u8; 1000 + 37 * i]).collect();
                 let r = std::thread::Builder::new()
@@ -158,7 +173,11 @@ impl RefClient {
     }
 
     pub fn query(&mut self, call: &Call, text: &str) -> std::io::Result<Res> {
-        let req = Request { call: call.clone(), text: text.to_string() };
+        self.query_on_stack(call, text, None)
+    }
+
+    pub fn query_on_stack(&mut self, call: &Call, text: &str, stack_kib: Option<u64>) -> std::io::Result<Res> {
+        let req = Request { call: call.clone(), text: text.to_string(), stack_kib };
         let mut s = serde_json::to_string(&req).unwrap();
         s.push('\n');
         self.stdin.write_all(s.as_bytes())?;
